@@ -34,6 +34,7 @@ mod mon_c17;
 mod mon_c18;
 mod mon_c19;
 mod mon_c20;
+mod mon_venue;
 mod rng;
 mod scen;
 mod stubs;
@@ -53,7 +54,9 @@ pub fn errcode(e: anchor_lang::error::Error) -> u32 {
 
 fn main() {
     // panics of the code under test are outcomes, not crashes: keep them quiet
-    std::panic::set_hook(Box::new(|_| {}));
+    if std::env::var_os("MFI_PANIC_TRACE").is_none() {
+        std::panic::set_hook(Box::new(|_| {}));
+    }
     stubs::install();
     let args: Vec<String> = std::env::args().collect();
     if args.len() < 2 {
@@ -68,29 +71,53 @@ fn main() {
             let n: usize = args[4].parse().unwrap();
             let mut rng = Rng::new(seed ^ fam.bytes().fold(0u64, |a, b| a.wrapping_mul(131).wrapping_add(b as u64)));
             let mut out: Vec<String> = Vec::new();
-            match fam {
-                "fx" => fam_fx::gen(&mut rng, n, &mut out),
-                "wrapper" => fam_bank::gen_wrapper(&mut rng, n, &mut out),
-                "bank" => fam_bank::gen_bank_ops(&mut rng, n, &mut out),
-                "curve" => fam_curve::gen(&mut rng, n, &mut out),
-                "integr" => fam_integr::gen(&mut rng, n, &mut out),
-                "tokenfee" => fam_tokenfee::gen(&mut rng, n, &mut out),
-                "bankstate" => fam_gate::gen(&mut rng, n, &mut out),
-                "signer" => fam_auth::gen(&mut rng, n, &mut out),
-                "admin" => fam_admin::gen(&mut rng, n, &mut out),
-                "account" => fam_account::gen(&mut rng, n, &mut out),
-                "fees" => fam_fees::gen(&mut rng, n, &mut out),
-                "tx" => fam_tx::gen(&mut rng, n, &mut out),
-                "bkr" => fam_bkr::gen(&mut rng, n, &mut out),
-                "xfer" => fam_xfer::gen(&mut rng, n, &mut out),
-                "liq" => fam_liq::gen(&mut rng, n, &mut out),
-                "oracle" => fam_oracle::gen(&mut rng, n, &mut out),
-                "health" => fam_health::gen(&mut rng, n, &mut out),
-                "panic" => fam_panic::gen(&mut rng, n, &mut out),
-                _ => {
-                    eprintln!("unknown family {}", fam);
-                    std::process::exit(2);
+            // A panic INSIDE a generator (not in the code under test, whose panics are caught per case and are outcomes)
+            // must not kill the run for one unlucky seed: keep what was produced, continue with the advanced PRNG state.
+            // More than 25 such panics means something systematic: the process then fails as before.
+            let known = ["fx", "wrapper", "bank", "curve", "integr", "tokenfee", "bankstate", "signer", "admin", "account", "fees", "tx", "bkr", "xfer", "liq", "oracle", "health", "panic"];
+            if !known.contains(&fam) {
+                eprintln!("unknown family {}", fam);
+                std::process::exit(2);
+            }
+            let mut gen_panics = 0usize;
+            while out.len() < n {
+                let want = n - out.len();
+                let mut part: Vec<String> = Vec::new();
+                let r = std::panic::catch_unwind(std::panic::AssertUnwindSafe(|| match fam {
+                "fx" => fam_fx::gen(&mut rng, want, &mut part),
+                "wrapper" => fam_bank::gen_wrapper(&mut rng, want, &mut part),
+                "bank" => fam_bank::gen_bank_ops(&mut rng, want, &mut part),
+                "curve" => fam_curve::gen(&mut rng, want, &mut part),
+                "integr" => fam_integr::gen(&mut rng, want, &mut part),
+                "tokenfee" => fam_tokenfee::gen(&mut rng, want, &mut part),
+                "bankstate" => fam_gate::gen(&mut rng, want, &mut part),
+                "signer" => fam_auth::gen(&mut rng, want, &mut part),
+                "admin" => fam_admin::gen(&mut rng, want, &mut part),
+                "account" => fam_account::gen(&mut rng, want, &mut part),
+                "fees" => fam_fees::gen(&mut rng, want, &mut part),
+                "tx" => fam_tx::gen(&mut rng, want, &mut part),
+                "bkr" => fam_bkr::gen(&mut rng, want, &mut part),
+                "xfer" => fam_xfer::gen(&mut rng, want, &mut part),
+                "liq" => fam_liq::gen(&mut rng, want, &mut part),
+                "oracle" => fam_oracle::gen(&mut rng, want, &mut part),
+                "health" => fam_health::gen(&mut rng, want, &mut part),
+                "panic" => fam_panic::gen(&mut rng, want, &mut part),
+                    _ => unreachable!(),
+                }));
+                let produced = part.len();
+                out.extend(part);
+                if r.is_err() {
+                    gen_panics += 1;
+                    if gen_panics > 25 {
+                        eprintln!("generator of family {} panicked {} times", fam, gen_panics);
+                        std::process::exit(101);
+                    }
+                } else if produced == 0 {
+                    break;
                 }
+            }
+            if gen_panics > 0 {
+                eprintln!("note: {} generator-internal panics in family {} (cases skipped)", gen_panics, fam);
             }
             use std::io::Write;
             let stdout = std::io::stdout();
@@ -112,29 +139,48 @@ fn main() {
             let n: usize = args[4].parse().unwrap();
             let mut rng = Rng::new(seed ^ 0x5EED_0000 ^ prop.bytes().fold(0u64, |a, b| a.wrapping_mul(131).wrapping_add(b as u64)));
             let mut rep = mon::Report::default();
-            match prop {
-                "IX" => scen::run(&mut rng, n, &mut rep),
-                "C02" => mon_c02::run(&mut rng, n, &mut rep),
-                "C03" => mon_c03::run(&mut rng, n, &mut rep),
-                "C08" => mon_c08::run(&mut rng, n, &mut rep),
-                "BR" => mon_c10::run(&mut rng, n, &mut rep),
-                "GATE" => mon_c04::run(&mut rng, n, &mut rep),
-                "LIQ" => mon_c05::run(&mut rng, n, &mut rep),
-                "TXS" => fam_tx::monitor(&mut rng, n, &mut rep),
-                "BKR" => fam_bkr::monitor(&mut rng, n, &mut rep),
-                "XFER" => fam_xfer::monitor(&mut rng, n, &mut rep),
-                "ORA" => fam_oracle::monitor(&mut rng, n, &mut rep),
-                "C12" => mon_c12::run(&mut rng, n, &mut rep),
-                "C13" => mon_c13::run(&mut rng, n, &mut rep),
-                "C14" => mon_c14::run(&mut rng, n, &mut rep),
-                "C15" => mon_c15::run(&mut rng, n, &mut rep),
-                "C17" => mon_c17::run(&mut rng, n, &mut rep),
-                "C18" => mon_c18::run(&mut rng, n, &mut rep),
-                "C19" => mon_c19::run(&mut rng, n, &mut rep),
-                "C20" => mon_c20::run(&mut rng, n, &mut rep),
-                _ => {
-                    eprintln!("no monitor for {}", prop);
-                    std::process::exit(2);
+            let known = ["IX", "C02", "C03", "C08", "BR", "GATE", "LIQ", "TXS", "BKR", "XFER", "VEN", "ORA", "C12", "C13", "C14", "C15", "C17", "C18", "C19", "C20"];
+            if !known.contains(&prop) {
+                eprintln!("no monitor for {}", prop);
+                std::process::exit(2);
+            }
+            // same policy as for the generators: a panic inside the monitor's own scenario construction (the code under
+            // test runs behind catch_unwind / the world's dispatch) costs the rest of that attempt, not the run
+            let mut budget = n;
+            let mut internal_panics = 0usize;
+            loop {
+                let r = std::panic::catch_unwind(std::panic::AssertUnwindSafe(|| match prop {
+                "IX" => scen::run(&mut rng, budget, &mut rep),
+                "C02" => mon_c02::run(&mut rng, budget, &mut rep),
+                "C03" => mon_c03::run(&mut rng, budget, &mut rep),
+                "C08" => mon_c08::run(&mut rng, budget, &mut rep),
+                "BR" => mon_c10::run(&mut rng, budget, &mut rep),
+                "GATE" => mon_c04::run(&mut rng, budget, &mut rep),
+                "LIQ" => mon_c05::run(&mut rng, budget, &mut rep),
+                "TXS" => fam_tx::monitor(&mut rng, budget, &mut rep),
+                "BKR" => fam_bkr::monitor(&mut rng, budget, &mut rep),
+                "XFER" => fam_xfer::monitor(&mut rng, budget, &mut rep),
+                "VEN" => mon_venue::run(&mut rng, budget, &mut rep),
+                "ORA" => fam_oracle::monitor(&mut rng, budget, &mut rep),
+                "C12" => mon_c12::run(&mut rng, budget, &mut rep),
+                "C13" => mon_c13::run(&mut rng, budget, &mut rep),
+                "C14" => mon_c14::run(&mut rng, budget, &mut rep),
+                "C15" => mon_c15::run(&mut rng, budget, &mut rep),
+                "C17" => mon_c17::run(&mut rng, budget, &mut rep),
+                "C18" => mon_c18::run(&mut rng, budget, &mut rep),
+                "C19" => mon_c19::run(&mut rng, budget, &mut rep),
+                "C20" => mon_c20::run(&mut rng, budget, &mut rep),
+                    _ => unreachable!(),
+                }));
+                if r.is_ok() {
+                    break;
+                }
+                internal_panics += 1;
+                rep.bump("monitor_internal_panic");
+                budget = (budget / 2).max(1);
+                if internal_panics > 6 {
+                    eprintln!("monitor {} panicked {} times", prop, internal_panics);
+                    std::process::exit(101);
                 }
             }
             rep.print(prop);
